@@ -49,6 +49,56 @@ func c16Contents(u c16Unit) []byte {
 
 func c16ListExec(c *core.Ctx, in c16List) {
 	c.Distinct(core.Hash64("list", fmt.Sprint(in.Units)), len(in.Units) >= 1)
+	c16ListJudge(in, func(k, w string) { c.FailCase(k, w, "pco-list", in) })
+}
+
+// c16Hist: earlier calls (parses of malformed input, constructor calls that are refused, serialisations of other
+// lists) followed by a probe list that is judged like a fresh round trip.
+type c16Step struct {
+	Op  string `json:"op"` // parse | add-bad-ipv4 | add-bad-ipv6 | add-bad-pcscf | marshal-other
+	Hex string `json:"hex,omitempty"`
+}
+
+type c16Hist struct {
+	Steps []c16Step `json:"earlier_calls"`
+	Probe c16List   `json:"probe"`
+}
+
+func c16HistExec(c *core.Ctx, in c16Hist) {
+	c.Distinct(core.Hash64("hist", fmt.Sprint(in)), true)
+	for _, st := range in.Steps {
+		st := st
+		_ = core.Try(func() {
+			p := nasConvert.NewProtocolConfigurationOptions()
+			switch st.Op {
+			case "parse":
+				_ = p.UnMarshal(unhex(st.Hex))
+			case "add-bad-ipv4":
+				_ = p.AddDNSServerIPv4Address(net.ParseIP("2001:db8::1"))
+				_ = p.Marshal()
+			case "add-bad-pcscf":
+				_ = p.AddPCSCFIPv4Address(net.IP{1, 2, 3})
+				_ = p.Marshal()
+			case "add-bad-ipv6":
+				_ = p.AddDNSServerIPv6Address(net.IP{10, 0, 0, 1, 9})
+				_ = p.Marshal()
+			case "marshal-other":
+				_ = p.AddIPv4LinkMTU(1400)
+				p.AddDNSServerIPv6AddressRequest()
+				_ = p.Marshal()
+			}
+		})
+	}
+	first := "none"
+	if len(in.Steps) > 0 {
+		first = in.Steps[0].Op
+	}
+	c16ListJudge(in.Probe, func(k, w string) {
+		c.FailCase("history|after-"+first+"|"+k, "after the earlier calls: "+w, "pco-hist", in)
+	})
+}
+
+func c16ListJudge(in c16List, failRaw func(k, w string)) {
 	pco := nasConvert.NewProtocolConfigurationOptions()
 	var want []byte
 	want = append(want, 0x80)
@@ -72,10 +122,10 @@ func c16ListExec(c *core.Ctx, in c16List) {
 		err = back.UnMarshal(append([]byte{}, enc...))
 	})
 	if pi == nil && shared {
-		c.FailCase("pco|Marshal|result-shared-between-calls", "Marshal: after the caller overwrote the first result a second call returns different octets", "pco-list", in)
+		failRaw("pco|Marshal|result-shared-between-calls", "Marshal: after the caller overwrote the first result a second call returns different octets")
 		return
 	}
-	fail := func(k, w string) { c.FailCase("pco|"+k, w, "pco-list", in) }
+	fail := func(k, w string) { failRaw("pco|"+k, w) }
 	if pi != nil {
 		fail(pi.Key(), "panics: "+pi.Msg)
 		return
@@ -399,6 +449,49 @@ func c16Run(c *core.Ctx) {
 			n++
 		}
 	}
+	// histories: every truncation and a 6-value replacement at every position of a valid encoding, the refused
+	// constructor calls and a serialisation of another list — alone and in ordered pairs with the refused calls — each
+	// followed by three probe lists
+	{
+		valid := []byte{0x80, 0x00, 0x0D, 0x04, 8, 8, 8, 8, 0x00, 0x03, 0x00, 0x80, 0x21, 0x02, 0xAA, 0xBB}
+		probes := []c16List{
+			{Units: []c16Unit{{ID: 0x000D, Len: 4}}},
+			{Units: []c16Unit{{ID: 0x8021, Len: 16, Pat: 1}, {ID: 0x0003, Len: 0}, {ID: 0x0010, Len: 2}}},
+			{Units: []c16Unit{{ID: 0x000C, Len: 100, Pat: 3}, {ID: 0x0001, Len: 255}}},
+		}
+		var steps []c16Step
+		for _, op := range []string{"add-bad-ipv4", "add-bad-ipv6", "add-bad-pcscf", "marshal-other"} {
+			steps = append(steps, c16Step{Op: op})
+		}
+		nfixed := len(steps)
+		for cut := 0; cut <= len(valid); cut++ {
+			steps = append(steps, c16Step{Op: "parse", Hex: hexs(valid[:cut])})
+		}
+		for pos := range valid {
+			for _, v := range alpha {
+				m := append([]byte{}, valid...)
+				m[pos] = v
+				steps = append(steps, c16Step{Op: "parse", Hex: hexs(m)})
+			}
+		}
+		for si, st := range steps {
+			if !c.Mine(si) {
+				continue
+			}
+			if !c.Begin("pco-hist", "history", st) {
+				continue
+			}
+			for _, pr := range probes {
+				c16HistExec(c, c16Hist{Steps: []c16Step{st}, Probe: pr})
+				n++
+				for _, st2 := range steps[:nfixed] {
+					c16HistExec(c, c16Hist{Steps: []c16Step{st, st2}, Probe: pr})
+					c16HistExec(c, c16Hist{Steps: []c16Step{st2, st}, Probe: pr})
+					n += 2
+				}
+			}
+		}
+	}
 	c.Add("evaluations", n)
 	if c.Shard == 0 {
 		c.Sample("pco-list", 1, func() any { return c16List{Units: []c16Unit{{ID: 0x000D, Len: 4}, {ID: 0x0003, Len: 0}}} })
@@ -409,13 +502,14 @@ func c16Run(c *core.Ctx) {
 
 func init() {
 	core.RegisterKind("C16", "pco-list", c16ListExec)
+	core.RegisterKind("C16", "pco-hist", c16HistExec)
 	core.RegisterKind("C16", "pco-raw", c16RawExec)
 	core.RegisterKind("C16", "psi", c16PsiExec)
 	core.RegisterProp(&core.PropSpec{
 		ID: "C16", Level: "exploration", Run: c16Run,
 		Shards: func(string) int { return 16 },
 		Rule: func(tier string) string {
-			return "PCO lists of 0..3 (4 thorough) units over 5 identifiers x 6 content lengths (first two positions complete, deeper positions on a stride), every content length 0..255 of one unit, the Add… constructors; UnMarshal on every byte string of length <= 6 (8 thorough) over {00,01,02,03,80,FF} and the <=2-mutation neighbourhood of a valid encoding; all 65 536 PDU session bitmaps in both directions. Oracle: serialisation = 0x80 then id/length/contents per unit; parse(serialise(l)) = l; for arbitrary bytes no panic and every parsed unit is literally in the input at the offset a straightforward reader computes; bitmap bit i <-> bit (i mod 8) of octet (i div 8). Parser and bitmap inputs are handed over inside a guarded buffer (sub-slice with spare capacity and canaries) that must be unchanged afterwards."
+			return "PCO lists of 0..3 (4 thorough) units over 5 identifiers x 6 content lengths (first two positions complete, deeper positions on a stride), every content length 0..255 of one unit, the Add… constructors; UnMarshal on every byte string of length <= 6 (8 thorough) over {00,01,02,03,80,FF} and the <=2-mutation neighbourhood of a valid encoding; all 65 536 PDU session bitmaps in both directions. Oracle: serialisation = 0x80 then id/length/contents per unit; parse(serialise(l)) = l; for arbitrary bytes no panic and every parsed unit is literally in the input at the offset a straightforward reader computes; bitmap bit i <-> bit (i mod 8) of octet (i div 8). Histories: every truncation and a 6-value replacement at every position of a valid encoding through UnMarshal, the constructor calls that are refused (IPv6 address as IPv4, 3- and 5-octet addresses) and a serialisation of another list — alone and in ordered pairs — each followed by three probe lists judged like a fresh round trip. Parser and bitmap inputs are handed over inside a guarded buffer (sub-slice with spare capacity and canaries) that must be unchanged afterwards."
 		},
 		Assumptions: []string{"a trailing unit without a complete header may be dropped silently by the parser (the property only forbids invented contents and panics)"},
 		Finish:      finishDistinct("distinct by unit list / input octets / bitmap; non-trivial = lists with at least one unit, raw inputs that reach a container header (>= 4 octets), bitmaps other than all-clear and all-set"),
